@@ -98,14 +98,14 @@ def prepare(case) -> Subject:
         flow = bd.build_flow(sp)
         b = flow.bijection
         dim = int(sp["dim"])
-        x = bd.make_input(inp["xraw"], inp["xpick"], [0.0, 1.0, -1.0, 3.0, -3.0], (dim,), np.zeros(dim, int),
-                          inp["sigma"])
+        fpool = [0.0, 1.0, -1.0, 3.0, -3.0, 2.0, -2.0]  # spline interval ends of the transformers, tanh switch
+        x = bd.make_input(inp["xraw"], inp["xpick"], fpool, (dim,), np.zeros(dim, int), inp["sigma"])
         c = bd.make_cond(inp["craw"], b.cond_shape)
         f = sp["factory"]
         tanh_planar = f == "planar_flow" and sp.get("negative_slope") is None
         numinv = f == "block_neural_autoregressive_flow"
         s = Subject("flow", f, b, x, c, invertible=not tanh_planar, numinv=numinv, onto=True,
-                    cod=np.zeros(dim, int), dom=np.zeros(dim, int), boundary=False,
+                    cod=np.zeros(dim, int), dom=np.zeros(dim, int), boundary=False, pool=fpool,
                     tol_inv=(1e-7 if (bd.shim.F32 or not sp.get("tight", True)) else 1e-13) if numinv else None)
         s.fwd_only_dir = None
         if tanh_planar:  # only one direction exists: Invert(Scan) has no transform, Scan has no inverse
